@@ -35,6 +35,8 @@ type c14Case struct {
 	HasFile bool              `json:"hasfile"`
 	File    [][2]interface{}  `json:"file"`   // (field, decoded value the file gives)
 	Tokens  []string          `json:"tokens"` // the batch line after strings.Fields
+	Hist    [][]string        `json:"hist"`   // batch lines run before (real Run, child process) on the same project, which starts WITHOUT config.yml
+	Kind    string            `json:"kind"`   // random | sweep (one key in the file, none on the line) | seq
 	PF      map[string]string `json:"pf"`     // strconv.ParseFloat of every argument value: bits, "" = error
 	Risky   bool              `json:"risky"`  // a numeric argument was generated malformed on purpose
 	Fatal   bool              `json:"fatal"`  // readConfig ended the process (log.Fatal)
@@ -82,6 +84,19 @@ func c14(args []string) {
 		for _, f := range c14Fields() {
 			enc.Encode(f)
 		}
+		return
+	}
+	if len(args) == 2 && args[0] == "defaultyaml" {
+		// the rendering of NewDefaultConfig(), by the writer Run uses for a missing config.yml
+		s := hermes.NewHermesSession()
+		s.WriteYamlConfig(args[1], hermes.NewDefaultConfig())
+		s.Close()
+		return
+	}
+	if len(args) > 2 && args[0] == "runline" {
+		// vh c14 runline <root> tok...: the REAL Run on one batch line (ends in log.Fatal on the stub project, after
+		// the configuration step); only its effect on project/p/config.yml matters
+		hermes.NewHermesSession().Run(args[1], args[2:], "1", nil, nil)
 		return
 	}
 	if len(args) == 0 || args[0] != "cases" {
@@ -136,6 +151,25 @@ func c14Run(c *c14Case, fields []c14Field, w *bufio.Writer) {
 	if c.HasFile {
 		os.WriteFile(filepath.Join(proj, "config.yml"), []byte(c.yaml), 0o644)
 	}
+	if len(c.Hist) > 0 {
+		self, _ := os.Executable()
+		for _, line := range c.Hist {
+			exec.Command(self, append([]string{"c14", "runline", c.Root}, line...)...).Run()
+		}
+		// the generated file must be the rendering of NewDefaultConfig(), whatever the lines said
+		got, err := os.ReadFile(filepath.Join(proj, "config.yml"))
+		ref := filepath.Join(c.Root, "default_rendering.yml")
+		s := hermes.NewHermesSession()
+		s.WriteYamlConfig(ref, hermes.NewDefaultConfig())
+		s.Close()
+		want, _ := os.ReadFile(ref)
+		if err != nil {
+			fmt.Fprintf(w, "ORACLE generated-config missing case=%d: Run did not generate config.yml; line=%q\n", c.ID, strings.Join(c.Hist[0], " "))
+		} else if string(got) != string(want) {
+			fmt.Fprintf(w, "ORACLE generated-config differs-from-defaults case=%d: config.yml generated by Run on a project without one is not the rendering of NewDefaultConfig(); first line=%q; generated=%q\n",
+				c.ID, strings.Join(c.Hist[0], " "), c14DiffLines(string(want), string(got)))
+		}
+	}
 	// hermes/run.go:37-43, verbatim (the lines are inside Run and cannot be called; lib/props/c14.py checks on
 	// every run that run.go still contains exactly these statements)
 	argValues := make(map[string]string)
@@ -160,6 +194,23 @@ func c14Run(c *c14Case, fields []c14Field, w *bufio.Writer) {
 		}
 	}
 	c14Oracle(c, fields, obs, w)
+}
+
+func c14DiffLines(want, got string) string {
+	have := map[string]bool{}
+	for _, l := range strings.Split(want, "\n") {
+		have[l] = true
+	}
+	var d []string
+	for _, l := range strings.Split(got, "\n") {
+		if !have[l] {
+			d = append(d, l)
+		}
+	}
+	if len(d) > 8 {
+		d = d[:8]
+	}
+	return strings.Join(d, " | ")
 }
 
 // the property itself on the real result: argument (parsed per kind) over file over default
@@ -223,8 +274,8 @@ func c14Oracle(c *c14Case, fields []c14Field, obs map[string]interface{}, w *buf
 			}
 		}
 		if obs[f.Name] != x {
-			fmt.Fprintf(w, "ORACLE precedence %s (%s) from=%s case=%d want=%v got=%v line=%q file=%q\n", f.Name, f.Kind, src[f.Name], c.ID, x, obs[f.Name],
-				strings.Join(c.Tokens, " "), c.yaml)
+			fmt.Fprintf(w, "ORACLE precedence %s (%s) from=%s case=%d kind=%s want=%v got=%v line=%q file=%q earlier-lines=%q\n", f.Name, f.Kind, src[f.Name], c.ID, c.Kind, x, obs[f.Name],
+				strings.Join(c.Tokens, " "), c.yaml, c.Hist)
 		}
 	}
 }
@@ -251,7 +302,7 @@ func c14Generate(r *rng, fields []c14Field, n int, dir string) []*c14Case {
 	var cases []*c14Case
 	id, group := 0, 0
 	for k := 0; k < n; k++ {
-		c := &c14Case{Group: group, PF: map[string]string{}, typed: map[string]interface{}{}}
+		c := &c14Case{Group: group, Kind: "random", PF: map[string]string{}, typed: map[string]interface{}{}}
 		group++
 		// ----- project file -----
 		pFile := []float64{0, 0.1, 0.3, 0.8}[r.intn(4)]
@@ -266,31 +317,31 @@ func c14Generate(r *rng, fields []c14Field, n int, dir string) []*c14Case {
 				switch {
 				case f.Name == "EndDate":
 					s := pick(safeDates)
-					fmt.Fprintf(&y, "%s: \"%s\"\n", f.Yaml, s)
+					fmt.Fprintf(&y, "%s: \"%s\"\n", f.Name, s)
 					typed = "s" + s
 				case f.Type == "hermes.DateFormat":
 					i := []int{1, 3}[r.intn(2)]
-					fmt.Fprintf(&y, "%s: %s\n", f.Yaml, []string{"DateDEshort", "DateDElong", "DateENshort", "DateENlong"}[i])
+					fmt.Fprintf(&y, "%s: %s\n", f.Name, []string{"DateDEshort", "DateDElong", "DateENshort", "DateENlong"}[i])
 					typed = "i" + strconv.Itoa(i)
 				case f.Type == "hermes.GroundWaterFrom":
 					i := r.intn(3)
-					fmt.Fprintf(&y, "%s: %s\n", f.Yaml, []string{"polygonfile", "soilfile", "gwTimeSeries"}[i])
+					fmt.Fprintf(&y, "%s: %s\n", f.Name, []string{"polygonfile", "soilfile", "gwTimeSeries"}[i])
 					typed = "i" + strconv.Itoa(i)
 				case f.Kind == "float64":
 					v := fileFloat[r.intn(len(fileFloat))]
-					fmt.Fprintf(&y, "%s: %s\n", f.Yaml, strconv.FormatFloat(v, 'g', -1, 64))
+					fmt.Fprintf(&y, "%s: %s\n", f.Name, strconv.FormatFloat(v, 'g', -1, 64))
 					typed = "f" + strconv.FormatUint(math.Float64bits(v), 10)
 				case f.Kind == "int":
 					v := fileInt[r.intn(len(fileInt))]
-					fmt.Fprintf(&y, "%s: %d\n", f.Yaml, v)
+					fmt.Fprintf(&y, "%s: %d\n", f.Name, v)
 					typed = "i" + strconv.FormatInt(v, 10)
 				case f.Kind == "string":
 					s := word()
-					fmt.Fprintf(&y, "%s: \"%s\"\n", f.Yaml, s)
+					fmt.Fprintf(&y, "%s: \"%s\"\n", f.Name, s)
 					typed = "s" + s
 				case f.Kind == "bool":
 					s := pick(fileBool)
-					fmt.Fprintf(&y, "%s: %s\n", f.Yaml, s)
+					fmt.Fprintf(&y, "%s: %s\n", f.Name, s)
 					typed = "b0"
 					if c14Switch[strings.Trim(s, "\"")] {
 						typed = "b1"
@@ -388,8 +439,94 @@ func c14Generate(r *rng, fields []c14Field, n int, dir string) []*c14Case {
 			}
 		}
 	}
+	// ----- per-key sweep: the project file sets ONLY this key (written under its documented name = the name that
+	// works on the batch line) to a non-default value, the line does not mention it: the run must use that value
+	for _, f := range fields {
+		c := &c14Case{Group: group, ID: id, Kind: "sweep", HasFile: true, PF: map[string]string{}, typed: map[string]interface{}{}}
+		group++
+		id++
+		d := f.Default.(string)
+		var typed, text string
+		switch {
+		case f.Name == "EndDate":
+			typed, text = "s05072011", "\"05072011\""
+		case f.Type == "hermes.DateFormat":
+			typed, text = "i3", "DateENlong"
+			c.Tokens = []string{"EndDate=05072011"} // the default EndDate is no month-first date
+		case f.Type == "hermes.GroundWaterFrom":
+			typed, text = "i2", "gwTimeSeries"
+		case f.Kind == "float64":
+			bits, _ := strconv.ParseUint(d[1:], 10, 64)
+			v := math.Float64frombits(bits) + 1.5
+			typed, text = "f"+strconv.FormatUint(math.Float64bits(v), 10), strconv.FormatFloat(v, 'g', -1, 64)
+		case f.Kind == "int":
+			v, _ := strconv.ParseInt(d[1:], 10, 64)
+			typed, text = "i"+strconv.FormatInt(v+1, 10), strconv.FormatInt(v+1, 10)
+		case f.Kind == "string":
+			typed, text = d+"x", "\""+d[1:]+"x\""
+		case f.Kind == "bool":
+			if d == "b1" {
+				typed, text = "b0", "0"
+			} else {
+				typed, text = "b1", "1"
+			}
+		default:
+			continue
+		}
+		c.yaml = f.Name + ": " + text + "\n"
+		c.typed[f.Name] = typed
+		c.File = [][2]interface{}{{f.Name, typed}}
+		cases = append(cases, c)
+	}
+	// ----- sequences on a project WITHOUT config.yml: earlier lines (real Run) carry overrides, this line omits some
+	nseq := 6 + n/25
+	for k := 0; k < nseq; k++ {
+		c := &c14Case{Group: group, ID: id, Kind: "seq", PF: map[string]string{}, typed: map[string]interface{}{}}
+		group++
+		id++
+		line := func(p float64) []string {
+			t := []string{"project=p", "plotNr=1"}
+			for _, f := range fields {
+				if !r.chance(p) {
+					continue
+				}
+				switch {
+				case f.Name == "EndDate":
+					t = append(t, "EndDate="+pick(safeDates))
+				case f.Type == "hermes.DateFormat", f.Type == "hermes.GroundWaterFrom":
+					t = append(t, f.Name+"=1")
+				case f.Kind == "float64":
+					t = append(t, f.Name+"="+pick([]string{"12.5", "-3", "1e3", "0.25", "77"}))
+				case f.Kind == "int":
+					t = append(t, f.Name+"="+pick([]string{"12", "4", "7", "2", "1990"}))
+				case f.Kind == "string":
+					t = append(t, f.Name+"=q"+word())
+				case f.Kind == "bool":
+					t = append(t, f.Name+"="+pick([]string{"1", "0", "on", "off"}))
+				}
+			}
+			return t
+		}
+		for h := 1 + r.intn(2); h > 0; h-- {
+			c.Hist = append(c.Hist, line(0.25))
+		}
+		c.Hist[0] = append(c.Hist[0], "ResultFileExt=frozen", "LeachingDepth=9", "AutoIrrigation=0", "NDeposition=33.5")
+		c.Tokens = line(0.1)
+		cases = append(cases, c)
+	}
 	for _, c := range cases {
 		c.Root = filepath.Join(dir, fmt.Sprintf("g%05d", c.Group)) // permuted siblings share the project
+		for _, h := range c.Hist {
+			for _, t := range h {
+				if p := strings.Split(t, "="); len(p) == 2 {
+					if v, err := strconv.ParseFloat(p[1], 64); err == nil {
+						c.PF[p[1]] = strconv.FormatUint(math.Float64bits(v), 10)
+					} else {
+						c.PF[p[1]] = ""
+					}
+				}
+			}
+		}
 		for _, t := range c.Tokens {
 			if p := strings.Split(t, "="); len(p) == 2 {
 				if v, err := strconv.ParseFloat(p[1], 64); err == nil {
